@@ -318,8 +318,8 @@ pub fn root_alphabet(prog: &Program) -> Vec<Item> {
 
 // ------------------------------------------------------------------ enum corpus (C09)
 
-pub const N_VKINDS: usize = 11;
-pub const VKIND_NAMES: [&str; N_VKINDS] = ["unit", "unit_renamed", "unit_skipped", "unit_word", "newtype_u32", "newtype_opt", "newtype_struct", "struct", "struct_skipped", "unit_word_false", "struct_flatten"];
+pub const N_VKINDS: usize = 12;
+pub const VKIND_NAMES: [&str; N_VKINDS] = ["unit", "unit_renamed", "unit_skipped", "unit_word", "newtype_u32", "newtype_opt", "newtype_struct", "struct", "struct_skipped", "unit_word_false", "struct_flatten", "unit_skip_word"];
 const VSLOT_NAMES: [&str; 3] = ["AlphaBeta", "Gamma", "DeltaX9"];
 
 fn kind_variant(kind: usize, slot: usize, pool: &mut Vec<Decl>) -> Variant {
@@ -344,6 +344,10 @@ fn kind_variant(kind: usize, slot: usize, pool: &mut Vec<Decl>) -> Variant {
             let mut rest = Field::new("rest", Ty::Struct(child_struct(pool, true)));
             rest.flatten = true;
             v.body = VBody::Struct(vec![Field::new("x", Ty::U32), rest]);
+        }
+        11 => {
+            v.skip = true;
+            v.word = Some(true);
         }
         _ => panic!("vkind"),
     }
@@ -487,6 +491,16 @@ pub fn attr_corpus(thorough: bool) -> Vec<Program> {
                 pool[0] = Decl::Struct(s);
                 out.push(Program { decls: pool, root: 0, family: format!("attrs {} names={:?} fwd={:?}", t.name(), names, fwd) });
             }
+        }
+    }
+    // receivers with declared attribute names but no ordinary member (magic members only)
+    for t in [Trait::FromDeriveInput, Trait::FromField, Trait::FromVariant, Trait::FromTypeParam, Trait::FromAttributes] {
+        for fwd in [Fwd::All, Fwd::Only(vec!["doc".into(), "a".into()])] {
+            let mut s = StructDecl::new(t, vec![]);
+            s.attrs = vec!["a".into(), "b".into()];
+            s.fwd = fwd.clone();
+            s.magic = vec!["attrs".into()];
+            out.push(Program { decls: vec![Decl::Struct(s)], root: 0, family: format!("attrs {} names=[a, b] no-members fwd={:?}", t.name(), fwd) });
         }
     }
     // receivers that read no attribute of their own and only forward
